@@ -52,6 +52,10 @@ func LoadHIDIConfig(path string) (HIDIConfig, error) {
 
 	var config HIDIConfig
 
+	if rawConfig.HIDI.PoolRate <= 0 || rawConfig.HIDI.DiscoveryRate <= 0 {
+		return HIDIConfig{}, fmt.Errorf("pool_rate and discovery_rate in \"%s\" have to be positive", path)
+	}
+
 	config.HIDI.EVThrottling = time.Second / time.Duration(rawConfig.HIDI.PoolRate)
 	config.HIDI.DiscoveryRate = time.Second / time.Duration(rawConfig.HIDI.DiscoveryRate)
 	config.HIDI.StabilizationPeriod = time.Millisecond * time.Duration(rawConfig.HIDI.StabilizationPeriod)
